@@ -16,7 +16,8 @@ from . import core
 PROPS_MODULE = "NessaiVerif.Props.C13"
 KEY_F4 = "NestedSampler.consume_sample:interrupt-between-evidence-increment-and-insertion-index"
 MANIFEST = dict(
-    text="Lean micro-step model of one iteration of the standard sampler (the state-mutating statements of consume_sample / "
+    text="PARTIAL (exact at the granularity of the seven state-mutating statements; exit code, 'checkpoint written before exit' and the "
+         "flow-proposal phase are harness-only): Lean micro-step model of one iteration of the standard sampler (the state-mutating statements of consume_sample / "
          "insert_live_point in the order extracted from the source on every run) and of interruption + checkpoint + resume: "
          "proved for every consistent state and every admissible candidate that a signal before the evidence increment or after the "
          "insertion index is recorded resumes to a consistent state, and that a signal anywhere in between ALWAYS resumes to an "
@@ -24,12 +25,14 @@ MANIFEST = dict(
          "of the code (known finding F4), so the property is decided as: holds outside the window, fails inside it, window exact. "
          "Importance sampler: the handler's checkpoint request returns before any write (guard position extracted from source). "
          "Tie: the real handler path (checkpoint + exit) is invoked before every statement line of consume_sample, "
-         "insert_live_point, check_state and update_state of the real sampler (scripted proposal; and a real run in its flow "
+         "_NSIntegralState.increment, insert_live_point, check_state and update_state of the real sampler (scripted proposal; and a real run in its flow "
          "phase), the pickled state and the resumed run are compared with the model and checked with the property's consistency "
          "list; a real SIGTERM to a child process checks the exit code; for the importance sampler the boundary checkpoint must "
          "stay byte-identical.",
     note="Signals are delivered at source-line granularity by a trace hook calling the real checkpoint/exit path (real OS signals "
-         "only for the exit-code test); interruptions inside state.increment / inside NumPy slice assignment are not enumerated.",
+         "only for the exit-code test); the model treats state.increment as one step: the statement lines inside it are interrupted too "
+         "but judged by the oracle only (the window opens at its first mutating statement, same known finding F4); interruptions "
+         "inside a single Python statement (NumPy slice assignment) are not enumerated.",
     technique="Lean 4 proof (micro-step state machine, both directions) + source-order translator + line-level interruption of the real code",
     ref="5/C13")
 
@@ -122,7 +125,15 @@ def ins_guard_first(tree):
     if not body:
         raise TranslationError("empty ImportanceNestedSampler.checkpoint")
     first = body[0]
+    def test_value(v):
+        # polarity of the guard: it must be taken for the handler's call (periodic=False, force=False) and not for a periodic one
+        try:
+            return bool(eval(compile(ast.Expression(first.test), "<guard>", "eval"), {"__builtins__": {}}, {"periodic": v, "force": False}))
+        except Exception:
+            return None
+
     ok = (isinstance(first, ast.If) and "periodic" in ast.unparse(first.test)
+          and test_value(False) is True and test_value(True) is False
           and any(isinstance(s, ast.Return) for s in first.body)
           and not any(isinstance(c, ast.Call) and (ast.unparse(c.func).endswith("checkpoint") or "dump" in ast.unparse(c.func))
                       for s in first.body for c in ast.walk(s)))
@@ -220,6 +231,7 @@ def state_of(ns):
     return {"live": [] if live is None else [(int(p["logL"]), int(p["pid"])) for p in live],
             "nested": [int(p["pid"]) for p in ns.nested_samples],
             "evid": [int(v) for v in ns.state.logLs[1:]],
+            "evid_nlive": len(ns.state.nlive), "evid_vols": len(ns.state.log_vols) - 1,
             "idx": [int(v) for v in ns.insertion_indices], "iter": int(ns.iteration)}
 
 
@@ -234,6 +246,7 @@ def consistent(st, n):
     ids = [i for _, i in st["live"]] + st["nested"]
     keys = [k for k, _ in st["live"]]
     return (len(st["live"]) == n and len(st["nested"]) == st["iter"] and len(st["evid"]) == st["iter"]
+            and st.get("evid_nlive", st["iter"]) == st["iter"] and st.get("evid_vols", st["iter"]) == st["iter"]
             and len(st["idx"]) == st["iter"] and len(set(ids)) == len(ids) and keys == sorted(keys))
 
 
@@ -250,7 +263,26 @@ def reasons(st, n):
         out.append(f"{len(st['evid'])} evidence-state entries for {st['iter']} iterations")
     if len(st["idx"]) != st["iter"]:
         out.append(f"{len(st['idx'])} insertion indices for {st['iter']} iterations")
+    for k, what in (("evid_nlive", "live-point counts"), ("evid_vols", "prior volumes")):
+        if st.get(k, st["iter"]) != st["iter"]:
+            out.append(f"the evidence integrator holds {st[k]} {what} for {st['iter']} iterations")
     return out
+
+
+def in_window(done):
+    """the known window: after the first mutation inside state.increment (done = 1.5 stands for "inside increment")
+    up to and including the insertion-index append"""
+    return 1 < done <= 6
+
+
+def _code_objs():
+    from nessai.evidence import _NSIntegralState
+    from nessai.samplers.nestedsampler import NestedSampler
+    return {NestedSampler.consume_sample.__code__: "consume_sample",
+            NestedSampler.insert_live_point.__code__: "insert_live_point",
+            NestedSampler.check_state.__code__: "check_state",
+            NestedSampler.update_state.__code__: "update_state",
+            _NSIntegralState.increment.__code__: "increment"}
 
 
 def interrupt_run(ctx, nlive, init, pre, cand, cand2, lineno, fn_name, n_done_tags):
@@ -263,10 +295,7 @@ def interrupt_run(ctx, nlive, init, pre, cand, cand2, lineno, fn_name, n_done_ta
         for _ in pre:
             ns.consume_sample()
         before = state_of(ns)
-        code_objs = {NestedSampler.consume_sample.__code__: "consume_sample",
-                     NestedSampler.insert_live_point.__code__: "insert_live_point",
-                     NestedSampler.check_state.__code__: "check_state",
-                     NestedSampler.update_state.__code__: "update_state"}
+        code_objs = _code_objs()
         target_code = [c for c, n in code_objs.items() if n == fn_name]
         fired = []
 
@@ -367,6 +396,11 @@ def traced_lines(tags, consume, insert):
         done = sum(1 for (tl, tf) in tag_lines if (tf == "consume_sample" and insert_call is not None and tl < insert_call)
                    or (tf == "insert_live_point" and tl < ln))
         lines.append((ln, "insert_live_point", done))
+    # inside _NSIntegralState.increment (called from consume_sample): lines before its first mutating statement are still
+    # "only logLmin assigned" (done = 1, comparable with the model); every later line is INSIDE the integrator update, which
+    # the model treats as one step: done = 1.5, oracle-only (no model line)
+    for ln, inside in increment_lines():
+        lines.append((ln, "increment", 1.5 if inside else 1))
     # the rest of the loop body: check_state runs before consume_sample (nothing done), update_state after it (all done)
     for fname, done in (("check_state", 0), ("update_state", len(tag_lines))):
         try:
@@ -378,6 +412,32 @@ def traced_lines(tags, consume, insert):
         for ln in body_lines:
             lines.append((ln, fname, done))
     return lines
+
+
+def increment_lines():
+    """(line, inside) for every statement line of nessai.evidence._NSIntegralState.increment; `inside` = some statement that
+    mutates the integrator (assignment to / append on a self attribute) has completed before it"""
+    src = (core.REPO / "nessai" / "evidence.py").read_text()
+    fn = _func(ast.parse(src), "_NSIntegralState", "increment")
+
+    def mutates(n):
+        if isinstance(n, (ast.Assign, ast.AugAssign, ast.AnnAssign)):
+            for t in (n.targets if isinstance(n, ast.Assign) else [n.target]):
+                ch = _attr_chain(t.value if isinstance(t, ast.Subscript) else t)
+                if ch and ch.startswith("self."):
+                    return True
+            return False
+        if isinstance(n, ast.Expr) and isinstance(n.value, ast.Call):
+            ch = _attr_chain(n.value.func)
+            return bool(ch) and ch.startswith("self.") and ch.split(".")[-1] in ("append", "extend", "insert", "pop", "update")
+        return False
+
+    stmts = sorted({(n.lineno, mutates(n)) for n in ast.walk(fn) if isinstance(n, ast.stmt) and n is not fn
+                    and not (isinstance(n, ast.Expr) and isinstance(n.value, ast.Constant))})
+    first = min((ln for ln, m in stmts if m), default=None)
+    if first is None:
+        raise TranslationError("no mutating statement found in _NSIntegralState.increment")
+    return [(ln, ln > first) for ln in sorted({ln for ln, _ in stmts})]
 
 
 _TREES = {}
@@ -401,11 +461,11 @@ def correspond(ctx):
     _TREES["tree"] = tree
     lines = traced_lines(tags, consume, insert)
     ctx.rule = ("for each configuration (nlive, likelihood pattern with ties, number of completed iterations, candidate position) the real "
-                "checkpoint-and-exit path is invoked before EVERY statement line of consume_sample and insert_live_point of the real "
-                "NestedSampler; the pickled state and the state after resume + one more iteration are compared with the Lean model and "
+                "checkpoint-and-exit path is invoked before EVERY statement line of check_state, consume_sample, _NSIntegralState.increment, "
+                "insert_live_point and update_state of the real NestedSampler; the pickled state and the state after resume + one more iteration are compared with the Lean model and "
                 "checked with the property's consistency list; INS: handler checkpoint mid-iteration must leave the boundary checkpoint "
                 "byte-identical; non-trivial = distinct (configuration, line)")
-    ctx.assume("signals delivered at source-line granularity; interruptions inside state.increment or inside a NumPy slice assignment not enumerated",
+    ctx.assume("signals delivered at source-line granularity (every statement line of check_state, consume_sample, _NSIntegralState.increment, insert_live_point, update_state); interruptions inside a single statement (e.g. a NumPy slice assignment) not enumerated; the model treats state.increment as one step, so the lines inside it are judged by the oracle only",
                "pickle fidelity of the sampler state (observed)")
     ctx.trust("Model/Interrupt.lean (hand-written micro-steps); statement order and INS guard position regenerated from source (Gen/Interrupt.lean)")
     rng = ctx.rng
@@ -435,7 +495,7 @@ def correspond(ctx):
             try:
                 res = interrupt_run(ctx, nlive, init, pre, cand, cand2, ln, fn, done)
             except ResumeFailed as e:
-                key = KEY_F4 if 2 <= done <= 6 else f"NestedSampler.{fn}:resume-after-signal:raised"
+                key = KEY_F4 if in_window(done) else f"NestedSampler.{fn}:resume-after-signal:raised"
                 ctx.oracle_fail(key, f"the checkpoint written by the signal handler cannot be resumed/continued: {e}", case)
                 ctx.case((c, ln), True, kind=f"done={done}:resume-raised")
                 continue
@@ -444,18 +504,19 @@ def correspond(ctx):
                 continue
             before, pickled, resumed, final = res
             sorted_init = sorted(init, key=lambda t: (t[0], t[1]))
-            mline = (f"int run {nlive} [{','.join(f'{k}:{i}' for k, i in sorted_init)}] "
-                     + ";".join([f"c {k}:{i}" for k, i in pre] + [f"p {done} {cand[0]}:{cand[1]}", f"r {cand2[0]}:{cand2[1]}", "f"]))
-            mlines.append(mline)
-            impls.append((fmt_state(pickled, nlive), fmt_state(resumed, nlive), fmt_state(final, 0).rsplit(" ok=", 1)[0]))
-            cases.append(case)
+            if done == int(done):   # inside state.increment (done = 1.5) the model has no corresponding instant: oracle only
+                mline = (f"int run {nlive} [{','.join(f'{k}:{i}' for k, i in sorted_init)}] "
+                         + ";".join([f"c {k}:{i}" for k, i in pre] + [f"p {int(done)} {cand[0]}:{cand[1]}", f"r {cand2[0]}:{cand2[1]}", "f"]))
+                mlines.append(mline)
+                impls.append((fmt_state(pickled, nlive), fmt_state(resumed, nlive), fmt_state(final, 0).rsplit(" ok=", 1)[0]))
+                cases.append(case)
             ok = consistent(resumed, nlive)
             fin_ids = final["nested"]
             ok_final = len(set(fin_ids)) == len(fin_ids) and len(final["evid"]) == len(fin_ids)
             if not (ok and ok_final):
-                in_window = 2 <= done <= 6
-                key = KEY_F4 if in_window else f"NestedSampler.{fn}:interrupt-outside-known-window"
-                window_hits += in_window
+                inw = in_window(done)
+                key = KEY_F4 if inw else f"NestedSampler.{fn}:interrupt-outside-known-window"
+                window_hits += inw
                 ctx.oracle_fail(key, "after signal + checkpoint + resume: " + "; ".join(reasons(resumed, nlive) or ["final result records a point twice"]),
                                 case)
             ctx.case((c, ln), True, case if c == 0 and done in (0, 3, 7) else None, kind=f"done={done}:{'ok' if ok and ok_final else 'inconsistent'}")
@@ -498,7 +559,8 @@ def real_state(ns):
     pid = lambda p: hash((float(p["x"]), float(p["y"])))  # noqa: E731
     return {"live": [] if live is None else [(float(p["logL"]), pid(p)) for p in live],
             "nested": [pid(p) for p in ns.nested_samples],
-            "evid": list(ns.state.logLs[1:]), "idx": list(ns.insertion_indices), "iter": int(ns.iteration)}
+            "evid": list(ns.state.logLs[1:]), "evid_nlive": len(ns.state.nlive), "evid_vols": len(ns.state.log_vols) - 1,
+            "idx": list(ns.insertion_indices), "iter": int(ns.iteration)}
 
 
 def flow_phase_test(ctx, lines, src):
@@ -519,10 +581,7 @@ def flow_phase_test(ctx, lines, src):
         if fs.ns.uninformed_sampling:
             ctx.case(("flow-phase", "not-reached"), False, kind="flow:not-reached")
             return
-        code_objs = {NestedSampler.consume_sample.__code__: "consume_sample",
-                     NestedSampler.insert_live_point.__code__: "insert_live_point",
-                     NestedSampler.check_state.__code__: "check_state",
-                     NestedSampler.update_state.__code__: "update_state"}
+        code_objs = _code_objs()
         step = ctx.scale(3, 1)
         # the pickled sampler stores absolute paths, so every experiment runs in `base`, restored from a template copy
         template = tempfile.mkdtemp(prefix="c13t_")
@@ -570,7 +629,7 @@ def flow_phase_test(ctx, lines, src):
                     f3.ns.initialise()
                     f3.ns.nested_sampling_loop()
                 except Exception as e:  # noqa: the resumed run itself failed
-                    key = KEY_F4 if 2 <= done <= 6 else f"NestedSampler.{fn}:resume-after-signal:raised"
+                    key = KEY_F4 if in_window(done) else f"NestedSampler.{fn}:resume-after-signal:raised"
                     ctx.oracle_fail(key, "flow phase: the checkpoint written by the signal handler cannot be resumed/continued: "
                                     f"{type(e).__name__}: {e}", case)
                     ctx.case(("flow", ln), True, kind=f"flow:done={done}:resume-raised")
@@ -578,7 +637,7 @@ def flow_phase_test(ctx, lines, src):
                 st = real_state(f3.ns)
                 ok = consistent({**st, "live": [(k, i) for k, i in st["live"]]}, nlive)
                 if not ok:
-                    key = KEY_F4 if 2 <= done <= 6 else f"NestedSampler.{fn}:interrupt-outside-known-window"
+                    key = KEY_F4 if in_window(done) else f"NestedSampler.{fn}:interrupt-outside-known-window"
                     ctx.oracle_fail(key, "flow phase, after signal + checkpoint + resume + 15 iterations: " + "; ".join(reasons(st, nlive)), case)
                 ctx.case(("flow", ln), True, case if done in (0, 7) and ln % 2 == 0 else None,
                          kind=f"flow:done={done}:{'ok' if ok else 'inconsistent'}")
@@ -681,6 +740,6 @@ def replay(ctx, obj):
     before, pickled, resumed, final = res
     if not consistent(resumed, c["nlive"]):
         done = c["mutating_statements_done"]
-        key = KEY_F4 if 2 <= done <= 6 else f"NestedSampler.{c['fn']}:interrupt-outside-known-window"
+        key = KEY_F4 if in_window(done) else f"NestedSampler.{c['fn']}:interrupt-outside-known-window"
         ctx.oracle_fail(key, "; ".join(reasons(resumed, c["nlive"])), c)
     ctx.case("replay", True, c)
